@@ -31,9 +31,11 @@ RULE = (
     "distinct = hash of the case.")
 ASSUMPTIONS = [
     "x64 on (float32 trees, float64 root): statistics / momenta / update compared "
-    "at 5e-5 of the leaf's max-abs; preconditioners at (n*err + n*1e-6 + 1e-5) of "
-    "max-abs where err is the reported root error (2e-3 extra for eigh with a "
-    "relative ridge, whose eigenvalue estimate is not reported)",
+    "at 5e-5 of the leaf's max-abs (+ a computed float32 cancellation bound); "
+    "preconditioners at (n*err + n*1e-6 + 1e-5 + 256*n*p*u*kappa) of max-abs where "
+    "err is the reported root error and kappa the regularised condition number "
+    "(roots with 256*n*p*u*kappa > 1e-3 are counted and skipped; 2e-3 extra for eigh "
+    "with a relative ridge, whose eigenvalue estimate is not reported)",
     "the ridge is reconstructed from the reported max_eigen_value / total_retries",
     "a preconditioner left bit-identical on a refresh step (root rejected or "
     "statistics unchanged) is accepted and counted, not compared",
@@ -279,7 +281,13 @@ def check(case):
             if P is None:
               skipped_eigh += 1      # regularised float32 statistic is not positive definite: no reference
               continue
-            tol = nsz * float(err) + nsz * 1e-6 + 1e-5 + extra
+            lmin = float(np.linalg.eigvalsh((S + S.T) / 2)[0])
+            kappa = (lmax + d) / max(lmin + d, 1e-300)
+            cond_slack = 256.0 * nsz * lay.exponent * 2.0 ** -53 * kappa      # C01's calibrated rounding slack
+            if cond_slack > 1e-3:
+              skipped_eigh += 1     # conditioning beyond what float64 can resolve: no meaningful comparison
+              continue
+            tol = nsz * float(err) + nsz * 1e-6 + 1e-5 + extra + cond_slack
             worst = max(worst, _cmp(nw["pres"][k], P, tol, "preconditioner-is-inverse-root",
                                     f"{tag} preconditioner {k} (exponent {lay.exponent}, ridge {d:.3g}, reported error {err:.3g})"))
             compared += 1
